@@ -3,6 +3,7 @@ package props
 import (
 	"fmt"
 	"math/big"
+	"time"
 
 	"github.com/google/go-tdx-guest/verify"
 	"github.com/google/go-tdx-guest/verify/trust"
@@ -18,8 +19,17 @@ import (
 func honestOverRealHTTP(x *mon.Ctx) {
 	const class = "honest-over-real-http"
 	n := 0
-	for _, h2 := range []bool{false, true} {
-		pcs := mon.StartHTTPPCS(h2)
+	for vi, h2 := range []bool{false, true, false} {
+		// the third pass: the program has installed a RoundTripper of its own as default transport (a wrapper type, as tracing
+		// and egress libraries do); the library's getter goes through whatever the process's default is
+		wrapped := vi == 2
+		pcs := mon.StartHTTPPCS
+		if wrapped {
+			pcs = mon.StartWrappedHTTPPCS
+		}
+		pcs0 := pcs(h2)
+		served := 0
+		abort := false
 		for wi := 0; wi < x.Pick(2, 8); wi++ {
 			r := x.Rand(fmt.Sprint("real-http", wi, h2))
 			w := richHonest(r)
@@ -37,11 +47,15 @@ func honestOverRealHTTP(x *mon.Ctx) {
 			for _, lv := range []int{world.LColl, world.LCrl} {
 				c := w.Case(lv, class, "")
 				ctl := mon.RunVerify(c) // the scripted getter
-				pcs.Serve(c.Resp)
+				pcs0.Serve(c.Resp)
 				for _, mode := range []string{"content-length", "chunked", "gzip", "pieces", "pieces-chunked"} {
 					for _, getter := range []string{"default", "simple"} {
-						pcs.Mode = mode
-						c.Param = fmt.Sprintf("w%d/h2=%v/%s/%s/%s", wi, h2, mode, getter, lvl(c))
+						if abort {
+							break
+						}
+						pcs0.Mode = mode
+						c.Param = fmt.Sprintf("w%d/h2=%v/wrapped-transport=%v/%s/%s/%s", wi, h2, wrapped, mode, getter, lvl(c))
+						served++
 						o, _ := mon.Options(c)
 						o.Getter = nil
 						if getter == "simple" {
@@ -49,7 +63,23 @@ func honestOverRealHTTP(x *mon.Ctx) {
 						}
 						m := mon.MessageFor("built", c.Quote)
 						var err error
-						pv, st := mon.Guard(func() { err = verify.TdxQuote(m, o) })
+						before := pcs0.Requests()
+						pv, st, hung := mon.GuardTimed(func() { err = verify.TdxQuote(m, o) }, 25*time.Second)
+						if hung {
+							// the default getter retries failed fetches for two minutes; an honest world served by a live server never
+							// needs that. The verdict is not the elapsed time but what the server saw: nothing at all means the
+							// library's requests did not go where the process's default transport sends them. (The call is left to
+							// finish in the background; the rest of this pass is skipped.)
+							if pcs0.Requests() == before {
+								x.Violation(class, c.Param, "the production getter is still retrying after 25 s and the server the process's default transport leads to has not seen a single request of this verification: the library does not fetch through the process's default transport", "none", nil)
+							} else {
+								x.Inconclusive(class + "/" + c.Param + ": no verdict after 25 s although the server was reached")
+							}
+							x.Note(class, c.Param, false, false, true)
+							n++
+							abort = true
+							break
+						}
 						switch {
 						case pv != "":
 							x.Violation(class, c.Param, "panic with the production getter: "+pv+"\n"+st, "none", nil)
@@ -64,7 +94,10 @@ func honestOverRealHTTP(x *mon.Ctx) {
 				}
 			}
 		}
-		pcs.Close()
+		if wrapped && served > 0 && pcs0.ThroughWrapper() == 0 {
+			x.Violation(class, "wrapped-default-transport", "the program's default transport (a wrapper type) saw none of the library's requests", "none", nil)
+		}
+		pcs0.Close()
 	}
 	x.Require(class, n, 0, n)
 }
